@@ -168,6 +168,10 @@ LeafWhys(c, lf) ==
     \* the choices of this very run have probability 1/pp (pp = product of the bounds of all its draws) and determine the password
     IF res.kind = "ok" /\ lf.unann = 0 /\ lf.left = 0 /\ res.ent.k = "fin" /\ lf.pp # <<>> /\ ~EntropyNotAbove(res.ent, lf.pp, 2)
       THEN "P:C06:the-choices-that-produced-this-password-are-likelier-than-2^-Entropy" ELSE "ok",
+    \* Process!LimitsAreTheCallers: MaxTrials / MaxFailRate are the caller's; a call that writes them (even to put them back later)
+    \* races with every concurrent call that reads them, and runs itself under limits nobody configured
+    IF lf.cfg = 1 THEN "P:C14:a-call-changed-the-process-wide-attempt-limits-while-it-ran" ELSE "ok",
+    IF lf.cfg = 1 THEN "P:C13:the-attempt-limits-in-force-during-a-call-are-not-the-configured-ones" ELSE "ok",
     IF lf.det = 0 THEN "P:C09:same-choices-from-the-source-gave-a-different-result" ELSE "ok",
     IF res.kind = "ok" /\ lf.reads = 0 /\ info.A >= 2 THEN "P:C09:password-produced-without-reading-the-random-source" ELSE "ok",   \* a one-character alphabet is no choice
     IF r.len >= 1 /\ lf.nd > c.maxTrials * r.len THEN "P:C13:more-attempts-than-MaxTrials" ELSE "ok",
